@@ -253,7 +253,10 @@ func checkC13(c *Ctx) error {
 							{Op: "getter", Name: "FetchBad"}, {Op: "getterctx", Name: "FetchBadInContext", Ctx: 2}, {Op: "getter", Name: "MustFetchBad"}, {Op: "getterctx", Name: "MustFetchBadInContext", Ctx: 2},
 							{Op: "getter", Name: "GetVBad"}, {Op: "getter", Name: "MustGetVBad"},
 							{Op: "getter", Name: "ObtainMis"}, {Op: "getterctx", Name: "ObtainMisInContext", Ctx: 1}, {Op: "getter", Name: "MustObtainMis"}, {Op: "getterctx", Name: "MustObtainMisInContext", Ctx: 2}, {Op: "get", Name: "mis"},
-							{Op: "getter", Name: "GetPlain"}, {Op: "getter", Name: "Getplain"}, {Op: "get", Name: "plain"}}
+							{Op: "getter", Name: "GetPlain"}, {Op: "getter", Name: "Getplain"}, {Op: "get", Name: "plain"},
+							// last: a context that was never attached to the container. Whatever GetInContext does with it, the typed
+							// accessors do the same (they are GetInContext plus a conversion)
+							{Op: "getctxfree", Name: "svc"}, {Op: "getterctxfree", Name: "GetSvcInContext"}, {Op: "getterctxfree", Name: "MustGetSvcInContext"}}
 						units = append(units, &probe.Unit{ID: idOf(i), Cfg: conf, Files: []probe.File{{Name: "gontainer.yaml", Content: conf.YAML()}}, Ops: ops})
 						cells = append(cells, cell)
 						i++
@@ -318,6 +321,42 @@ func checkC13(c *Ctx) error {
 					// the probe, which calls it by the expected name)
 					if want := "*" + u.PkgName() + "." + u.TypeName(); r.API.Type != want {
 						c.Violate("defaults", fmt.Sprintf("unit %s: the container type is %s, expected %s", u.ID, r.API.Type, want), files)
+					}
+				}
+			}
+		}
+		{
+			class := func(r probe.Res) string {
+				switch {
+				case r.Missing:
+					return "missing"
+				case r.Panic != "":
+					return "panic"
+				case r.Err != "":
+					return "error"
+				}
+				return "value"
+			}
+			var base *probe.Res
+			for oi, op := range u.Ops {
+				if oi >= len(u.Results) {
+					break
+				}
+				r := u.Results[oi]
+				switch op.Op {
+				case "getctxfree":
+					base = &u.Results[oi]
+				case "getterctxfree":
+					if base == nil || class(r) == "missing" {
+						continue
+					}
+					c.Add("accessors_compared_with_GetInContext_on_an_unattached_context", 1)
+					want := class(*base)
+					if strings.HasPrefix(op.Name, "Must") && want == "error" {
+						want = "panic"
+					}
+					if class(r) != want {
+						c.Violate("accessor-differs-from-GetInContext:unattached-context", fmt.Sprintf("unit %s %+v: with a context that was never attached GetInContext(ctx, \"svc\") ends in %s (%s%s) but %s(ctx) in %s (%s%s)", u.ID, cell, class(*base), base.Panic, base.Err, op.Name, class(r), r.Panic, r.Err), files)
 					}
 				}
 			}
